@@ -30,12 +30,32 @@ CLAIM = {
             "compiled expression on every line in order under recover() with a per-step deadline, in child processes (a hang, a memory "
             "blow-up or a fatal runtime error costs one child and is confirmed by a re-run alone before it is reported); a sample goes through "
             "`rare expression`, `rare filter -e` and `rare histogram -e`; a sample of the scans is recorded and validated by TLC against "
-            "ExprScan (ExprScan_Trace).",
+            "ExprScan (ExprScan_Trace). ExprScanPool.tla models what one evaluation leaves behind for a later one: the package-level LIFO pool "
+            "of sub-contexts that the array helpers @map/@reduce/@filter/@for of ALL compiled expressions of a process share (5 objects, grows on "
+            "demand), expressions as trees of nested helper calls, Get / parent-chain Lookup / Return as atomic actions of G goroutines that "
+            "evaluate N lines with every expression in turn, the exit path of every activation (no element, elements, a sub-expression that "
+            "answers a marker, @for's <INF> cap) chosen by the line. TLC proves Survives, Exclusive (no object handed out twice, none in the "
+            "pool while held, no duplicate in the pool), ChainsOK, OwnLine, Conserved, Terminates for the discipline of the code (one deferred "
+            "Return on every exit path, re-initialisation on every Get) and must refute each deviation: a double Return on one exit path (the "
+            "counterexample is a HISTORY - the capped loop, then a nested evaluation whose inner context is its own parent: the lookup never "
+            "ends), a missing re-initialisation, a leak (breaks only Conserved). ExprScanPool_Gen prints whole PROCESSES from those trees: an "
+            "ignore expression, the extraction expression and a second KeyBuilder (two and three helpers deep, chains of six and seven beyond "
+            "the pool's size, named keys / negative indices / formulas / funcs-file calls inside), a constant loop folded at Compile, and "
+            "histories of lines that drive every exit path of every pooled helper, each followed by probe lines; every process is run in a "
+            "child of its own - sequentially, from 3 goroutines at once, and through the real extractor (regex matcher, ignore set, 2 workers) "
+            "- with a progress record written before every evaluation, so that a fatal runtime error (stack overflow, concurrent map access: "
+            "no recoverable panic) is attributed to its evaluation, confirmed by a re-run alone and reported with the runtime's verdict in the "
+            "signature; a sample runs through `rare filter` / `rare histogram` with -i and two -e of one invocation; all recorded process "
+            "scans are validated by TLC against ExprScanPool_Trace.",
     "note": "Exploration, not proof: the space is finite pools and bounded templates (<= 5 arguments, nesting depth <= 3, byte strings <= 3 "
             "(quick) / 5 (thorough), formula token strings <= 3 / 4). Excluded as documented resource use: results of 10^7..10^18 elements "
             "(@range, @for, repeat, bar length), unbounded @for conditions with growing or long values. Outcome classes are only predicted for "
             "spellings without inner quotes/braces/backslashes. A deadline miss that is not reproduced alone is not reported. Concurrency of "
-            "evaluations is C10/C17's subject. Trusted: TLC, the Go runtime, the operating system's process isolation.",
+            "evaluations is checked for crashes only (values under concurrency are C10/C17's subject). Process scenarios use bounded loops "
+            "except for the capped lines, whose loops keep a value of constant size and are not nested in another loop (10^12 rounds / a "
+            "growing value are the documented resource class); an unguarded {@for x {lt {1} {key}} ..} costs 10^6 rounds inside Compile (the "
+            "optimiser evaluates every stage once with empty keys and <BAD-TYPE> is truthy), nested in another loop it does not return in "
+            "practice - noted, treated as that resource class. Trusted: TLC, the Go runtime, the operating system's process isolation.",
     "technique": "TLA+-defined input space (signature table, boundary pools, template grammar and malformation operators, resource exclusion) "
                  "enumerated and sampled by TLC, replayed as scans on the real compiler in watchdog-supervised child processes and the rare "
                  "binary; TLA+ scan state machine model-checked and used to validate recorded scans",
@@ -67,6 +87,14 @@ def _scan_cfg(n, faults, props=True):
             "%sCHECK_DEADLOCK FALSE\n" % (n, ", ".join('"%s"' % f for f in faults), "PROPERTIES CacheSticky Terminates\n" if props else ""))
 
 
+def _pool_cfg(which, g, n, p, maxobj, double=(), leak=(), noreset=(), invs=None, props=True):
+    q = lambda xs: "{%s}" % ", ".join('"%s"' % x for x in xs)
+    invs = invs or ("TypeOK", "Survives", "Exclusive", "ChainsOK", "OwnLine", "Conserved")
+    return ("SPECIFICATION Spec\nCONSTANTS Which = \"%s\"\n Exprs <- MCExprs\n G = %d\n N = %d\n PoolSize = %d\n MaxObj = %d\n"
+            " Double = %s\n Leak = %s\n NoReset = %s\nINVARIANTS %s\n%sCHECK_DEADLOCK FALSE\n"
+            % (which, g, n, p, maxobj, q(double), q(leak), q(noreset), " ".join(invs), "PROPERTIES Terminates\n" if props else ""))
+
+
 def _helper(f):
     """helper name of a finding (mutation tags carry the argument count)."""
     return re.sub(r"\d+$", "", f) if f else "-"
@@ -91,7 +119,11 @@ def _check(run):
         "and makes the run inconclusive, it is not a violation of this property",
         "a per-step deadline of %d s (three times that in the confirming re-run, alone in a fresh process); a miss that is not reproduced is "
         "listed as unconfirmed and not reported" % (15 if quick else 30),
-        "evaluations from several goroutines at once are not part of this check (C10/C17)",
+        "evaluations from several goroutines at once (process scenarios in mode par / extract) are checked for crashes only; their values are C10/C17's",
+        "process scenarios run with a goroutine stack limit of 64 MiB (Go's default is 1 GiB): their templates nest at most 7 helpers, so an "
+        "evaluation that needs more stack is a runaway recursion; the runtime's verdict (fatal error: stack overflow) is the same, only sooner",
+        "once 6 deaths of process scenarios of one class (runtime verdict + innermost frames) are confirmed by a re-run alone, further deaths of "
+        "that class are counted but not re-run",
     ]
     run.build_harness()
     sc = run.scratch
@@ -102,7 +134,7 @@ def _check(run):
     run.drv(["registry", "-out", reg_path])
     registry = json.load(open(reg_path))
 
-    state = {"values": None, "hashes": set(), "replays": [], "trace": None, "cli": None, "vecA": None}
+    state = {"values": None, "hashes": set(), "replays": [], "trace": None, "cli": None, "vecA": None, "proc": None}
 
     def write_vectors(r, path, values_row=None):
         seen = set()
@@ -121,7 +153,7 @@ def _check(run):
                 f.write(json.dumps(values_row, separators=(",", ":")) + "\n")
         return n, vals
 
-    def replay(tag, vec_path, tracemod=0, workers=4):
+    def replay(tag, vec_path, tracemod=0, workers=4, ptrace=None):
         res_path = os.path.join(sc, "c08-replay-%s.json" % tag)
         hash_path = os.path.join(sc, "c08-hashes-%s.bin" % tag)
         args = ["replay", "-in", vec_path, "-out", res_path, "-workers", workers, "-deadline", deadline, "-hashes", hash_path]
@@ -129,6 +161,8 @@ def _check(run):
         if tracemod:
             trace_path = os.path.join(sc, "c08-trace-%s.ndjson" % tag)
             args += ["-trace", trace_path, "-tracemod", tracemod]
+        if ptrace:
+            args += ["-ptrace", ptrace]
         run.drv(args, timeout=3000)
         res = json.load(open(res_path))
         res["tag"] = tag
@@ -153,6 +187,114 @@ def _check(run):
             if expect not in rn.violated:
                 raise Inconclusive("ExprScan with fault %s enabled: expected %s to be violated, got %s" % (fault, expect, rn.violated))
         run.cov["scan_model"] = "N=%d: %d states; faults panic/compile-panic/hang each rejected" % (n, r.distinct)
+
+    # ---------------------------------------------------------------- B3: the shared pool of several expressions / goroutines
+    def pool_mc():
+        if quick:
+            good = [("set3", 1, 2, 5, 8), ("setw", 1, 2, 5, 9), ("set2", 2, 1, 2, 6)]
+        else:
+            good = [("set3", 1, 3, 5, 8), ("setw", 1, 3, 5, 9), ("set2", 2, 2, 2, 6), ("setw", 2, 1, 2, 8), ("set3", 2, 1, 3, 9)]
+        total = 0
+        for which, g, n, p, mo in good:
+            label = "ExprScanPool %s G=%d N=%d pool=%d" % (which, g, n, p)
+            r = run.tlc("ExprScanPool_MC", _pool_cfg(which, g, n, p, mo), workers=1 if quick else 4, timeout=2400, label=label, coverage=(which == "set3" and g == 1))
+            require_clean(run, r, label)
+            total += r.distinct
+            if r.coverage:
+                dead = [a for a, (cnt, _) in r.coverage.items() if cnt == 0 and a.split(".")[1] in ("StartExpr", "EnterKid", "Lookup", "Exit")]
+                if dead:
+                    raise Inconclusive("ExprScanPool: actions never taken: %s" % dead)
+        # negative controls: a deviation from the Get/Return discipline on ONE exit path must be found, and only through a history
+        controls = [
+            ("double Return on @for's <INF> path", dict(double=["for/inf"]), ("set2", 1, 2, 5, 9), "Survives"),
+            ("double Return on @for's <INF> path", dict(double=["for/inf"]), ("set2", 1, 2, 5, 9), "Exclusive"),
+            ("double Return on @filter's marker path", dict(double=["filter/err"]), ("set2", 1, 2, 5, 9), "Survives"),
+            ("@map does not re-initialise its object", dict(noreset=["map"]), ("set2", 1, 2, 5, 9), "Survives"),
+            ("@map does not re-initialise its object, two goroutines", dict(noreset=["map"]), ("set2", 2, 1, 2, 6), "OwnLine"),
+            ("no Return on @filter's marker path", dict(leak=["filter/err"]), ("set2", 1, 2, 5, 9), "Conserved"),
+        ]
+        if quick:   # (the thorough tier runs all of them)
+            controls = [c for k, c in enumerate(controls) if k not in (1, 4)]
+
+        def control(c):
+            what, dev, (which, g, n, p, mo), expect = c
+            rn = run.tlc("ExprScanPool_MC", _pool_cfg(which, g, n, p, mo, invs=(expect,), props=False, **dev), workers=1, timeout=900,
+                         label="ExprScanPool negative control: %s (%s)" % (what, expect))
+            if expect not in rn.violated:
+                raise Inconclusive("ExprScanPool with %s: expected %s to be violated, got %s" % (what, expect, rn.violated))
+
+        def leak_ok():
+            # ... while a leak alone (harmless for this property) leaves the crash-related invariants intact
+            rl = run.tlc("ExprScanPool_MC", _pool_cfg("set2", 1, 2, 5, 9, leak=["filter/err"], invs=("Survives", "Exclusive", "ChainsOK", "OwnLine"), props=False),
+                         workers=1, timeout=900, label="ExprScanPool: a leak does not break Survives/Exclusive/ChainsOK/OwnLine")
+            require_clean(run, rl, "ExprScanPool with a leaking path")
+
+        parallel([(lambda c=c: control(c)) for c in controls] + [leak_ok], 3)
+        run.cov["pool_model"] = ("%d configurations, %d states without deviations; %d deviations (double Return on an exit path, missing "
+                                 "re-initialisation, leak) each refuted" % (len(good), total, len(controls)))
+
+    # ---------------------------------------------------------------- process scenarios: several expressions, histories, goroutines, extractor
+    def part_proc():
+        r = run.tlc("ExprScanPool_Gen", "INIT Init\nNEXT Next\nCONSTANTS Thorough = %s\nINVARIANTS Dump\nCHECK_DEADLOCK FALSE\n" % ("FALSE" if quick else "TRUE"),
+                    workers=2, timeout=2400, xmx="6g", label="ExprScanPool_Gen (process scenarios)")
+        require_clean(run, r, "ExprScanPool_Gen")
+        path = os.path.join(sc, "c08-vec-P.ndjson")
+        n, vals = write_vectors(r, path)
+        if vals is None or n < 300:
+            raise Inconclusive("generator of process scenarios produced %d vectors" % n)
+        ptrace = os.path.join(sc, "c08-ptrace.ndjson")
+        res, _ = replay("P", path, workers=6, ptrace=ptrace)
+        modes = res.get("proc_modes") or {}
+        if any(modes.get(m, 0) == 0 for m in ("seq", "par", "extract")) and not res.get("findings"):
+            raise Inconclusive("process scenarios did not run in every mode: %s" % modes)
+        if not res.get("inf_results") and not res.get("findings"):
+            raise Inconclusive("no evaluation of the process scenarios ran into @for's iteration cap (<INF>): the early-exit path is not driven")
+        # ---- the recorded process scans against ExprScanPool_Trace, with corrupted copies that must be rejected
+        lines = open(ptrace).read().splitlines()
+        nreal = len(lines)
+        scans, cur = [], []
+        for ln in lines:
+            if '"event":"reset"' in ln and cur:
+                scans.append(cur)
+                cur = []
+            cur.append(ln)
+        if cur:
+            scans.append(cur)
+        canary_ids, tid, made = set(), 2000000000, 0
+        for s in scans[::max(1, len(scans) // 80)]:
+            evs = [json.loads(x) for x in s]
+            li = [k for k, e in enumerate(evs) if e["event"] == "line"]
+            if len(li) < 4 or evs[-1]["event"] != "end" or any(e["res"] != "string" for e in evs if e["event"] == "line"):
+                continue
+            kind = made % 4
+            if kind == 0:      # the process died in an evaluation
+                evs[li[len(li) // 2]]["res"] = "fatal"
+                evs = evs[:li[len(li) // 2] + 1]
+            elif kind == 1:    # an evaluation is missing
+                del evs[li[1]]
+            elif kind == 2:    # the scan claims more lines than it read
+                evs[-1]["lines"] += 1
+            else:              # an expression was evaluated twice on a line
+                evs.insert(li[1], dict(evs[li[1]]))
+            tid += 1
+            for e in evs:
+                e["t"] = tid
+            canary_ids.add(tid)
+            lines += [json.dumps(e, separators=(",", ":")) for e in evs]
+            made += 1
+        if made < 8:
+            raise Inconclusive("too few recorded process scans to build canaries (%d scans)" % len(scans))
+        tpath = os.path.join(sc, "c08-ptrace-all.ndjson")
+        with open(tpath, "w") as f:
+            f.write("\n".join(lines) + "\n")
+        tres, _ = validate_traces(run, "ExprScanPool_Trace", tpath, label="ExprScanPool_Trace", timeout=2400, xmx="4g")
+        if tres["consumed"] != len(lines) or not tres["done"]:
+            raise Inconclusive("process trace validation consumed %d of %d events (done=%s)" % (tres["consumed"], len(lines), tres["done"]))
+        rejected = {b["t"] for b in tres["bad"] if b["t"] in canary_ids}
+        if rejected != canary_ids:
+            raise Inconclusive("process trace validation rejected only %d of %d corrupted scans" % (len(rejected), len(canary_ids)))
+        state["proc"] = {"res": res, "bad": [b for b in tres["bad"] if b["t"] not in canary_ids], "lines": lines, "nreal": nreal,
+                         "scans": tres["scans"] - len(canary_ids), "canaries": len(canary_ids), "vec": path}
 
     # ---------------------------------------------------------------- generators + replay
     def part_a():
@@ -200,19 +342,30 @@ def _check(run):
 
     def lane1():
         scan_mc()
+        pool_mc()
         return cli()
 
     def lane_bc():
         other("B", "full, cc, mut, raw, ff", 2)
         other("C", "math", 2)
 
-    rare, _, _, _ = parallel([lane1, part_a, lane_bc, part_sim], 4)
+    rare, _, _, _, _ = parallel([lane1, part_a, lane_bc, part_sim, part_proc], 5)
 
     # ---------------------------------------------------------------- CLI sample (needs part A's vectors and the binary)
     cli_path = os.path.join(sc, "c08-cli.json")
     run.drv(["cli", "-in", state["vecA"], "-rare", rare, "-out", cli_path, "-n", 240 if quick else 3000,
              "-nscan", 10 if quick else 60, "-timeout", 2 * deadline], timeout=3000)
     cli_res = json.load(open(cli_path))
+    # ... and process scenarios: the ignore expression and the extraction expressions of ONE rare invocation (filter, histogram)
+    pcli = os.path.join(sc, "c08-cli-proc.json")
+    run.drv(["cli", "-in", state["proc"]["vec"], "-rare", rare, "-out", pcli, "-n", 0, "-nscan", 0, "-nproc", 12 if quick else 80,
+             "-timeout", 2 * deadline], timeout=3000)
+    pcli_res = json.load(open(pcli))
+    cli_res["findings"] = (cli_res.get("findings") or []) + (pcli_res.get("findings") or [])
+    cli_res["runs"] += pcli_res["runs"]
+    cli_res["kinds"].update(pcli_res["kinds"])
+    cli_res["unconfirmed_timeouts"] = cli_res.get("unconfirmed_timeouts", 0) + pcli_res.get("unconfirmed_timeouts", 0)
+    cli_res["samples"] = (cli_res.get("samples") or [])[:2] + (pcli_res.get("samples") or [])[:1]
 
     # ---------------------------------------------------------------- B2: recorded scans against ExprScan
     trace = state["trace"]
@@ -276,7 +429,7 @@ def _check(run):
     per_group = {}
     for res in state["replays"]:
         infra += res.get("infra") or []
-        if res["scenarios"] + len([f for f in res.get("findings") or [] if f["kind"] in ("hang", "oom", "fatal")]) < res["expected"]:
+        if res["scenarios"] + len([f for f in res.get("findings") or [] if f["kind"] in ("hang", "oom", "fatal")]) + res.get("same_class_not_rerun", 0) < res["expected"]:
             infra.append("replay %s: %d of %d scenarios completed" % (res["tag"], res["scenarios"], res["expected"]))
         for k in tot:
             tot[k] += res.get(k, 0)
@@ -287,7 +440,7 @@ def _check(run):
         for s in (res.get("samples") or [])[:3]:
             run.sample(s)
         for f in res.get("findings") or []:
-            helper = _helper(f["f"]) if f["g"] not in ("raw", "scan", "hist") else f["g"]
+            helper = _helper(f["f"]) if f["g"] not in ("raw", "scan", "hist", "proc") else f["g"]
             # the class of a finding is where it happens: the innermost frame of rare (or of a library it calls) when there is a
             # stack, else the helper of the scenario - the same defect reached through different templates is one class
             site = (f.get("where") or "").split(" < ")[0] or helper
@@ -298,7 +451,8 @@ def _check(run):
                                      "nilexpr": "yields neither an expression nor an error", "scan": "loses lines"}.get(f["kind"], f["kind"]),
                 f["phase"], " (optimising)" if f.get("opt") else "", (" on line %d" % f["line"]) if f.get("line") else "", f["msg"], where), f)
     for f in cli_res.get("findings") or []:
-        sig = "cli:%s:%s:%s:%s" % (f["kind"], f["cmd"], _helper(f["f"]) if f["g"] not in ("raw", "scan", "hist") else f["g"], _norm(f["msg"]))
+        f.setdefault("where", "")
+        sig = "cli:%s:%s:%s:%s" % (f["kind"], f["cmd"], _helper(f["f"]) if f["g"] not in ("raw", "scan", "hist", "proc") else f["g"], _norm(f["msg"]))
         run.violation(sig, "`rare %s` with template %r %s (exit status %s): %s %s" % (
             f["cmd"], f["text"], "does not return" if f["kind"] == "hang" else "crashes", f["status"], f["msg"], f["where"]), f)
     for bad in b2_bad:
@@ -306,6 +460,19 @@ def _check(run):
                       "recorded scan %s is not a behaviour of ExprScan: event %d (%s) gives %s" % (bad["t"], bad["l"], bad["event"], bad["class"]),
                       {"bad": bad, "events": lines[max(0, bad["l"] - 6):bad["l"] + 1]})
 
+    pr = state["proc"]
+    for bad in pr["bad"]:
+        run.violation("b2:proc:%s:%s" % (bad["event"], bad["class"]),
+                      "recorded process scan %s is not a behaviour of ExprScanPool: event %d (%s) gives %s" % (bad["t"], bad["l"], bad["event"], bad["class"]),
+                      {"bad": bad, "events": pr["lines"][max(0, bad["l"] - 8):bad["l"] + 1]})
+    run.cov["process_scenarios"] = pr["res"]["scenarios"]
+    run.cov["process_scenarios_per_mode"] = pr["res"].get("proc_modes")
+    run.cov["process_evaluations"] = pr["res"].get("proc_evals")
+    run.cov["process_results_inf"] = pr["res"].get("inf_results")
+    run.cov["b2_process_scans_validated"] = pr["scans"]
+    run.cov["b2_process_events"] = pr["nreal"]
+    run.cov["b2_corrupted_process_scans_rejected"] = pr["canaries"]
+    run.cov["traces_validated_against_impl"] += pr["scans"]
     run.cov["cli_runs"] = cli_res["runs"]
     run.cov["cli_kinds"] = cli_res["kinds"]
     run.cov["cli_unconfirmed_timeouts"] = cli_res.get("unconfirmed_timeouts", 0)
